@@ -16,6 +16,8 @@ mod mv;
 mod opts;
 mod props;
 mod reader;
+#[cfg(feature = "ff")]
+mod serde_fam;
 mod util;
 
 use std::path::{Path, PathBuf};
